@@ -30,6 +30,67 @@ _RUN_IDS = itertools.count(1)
 _RUN_LOCK = threading.Lock()
 
 
+# ------------------------------------------------------------------------------------------ private Go build cache
+# Every run type-checks thousands of throw-away packages; in the shared GOCACHE those entries pile up (Go trims only after
+# days).  The toolchain runs of this family therefore use a per-run cache inside the scratch directory, seeded by hard links
+# from a small base cache (stdlib + testify, rebuilt automatically when missing or stale).
+_GOCACHE_LOCK = threading.Lock()
+
+
+def _base_cache_dir():
+    return Path(os.environ.get("VERIF_GOCACHE_BASE") or (Path.home() / ".cache" / "verif-codegen-gocache-base"))
+
+
+def gocache(ctx):
+    with _GOCACHE_LOCK:
+        d = getattr(ctx, "_cw_gocache", None)
+        if d is not None:
+            return d
+        base = _base_cache_dir()
+        ver = subprocess.run(["go", "version"], env=go_env(), capture_output=True, text=True).stdout.strip()
+        stamp = ver + "|" + str((REPO / "go.sum").stat().st_size)
+        marker = base / ".verif-ready"
+        if not (marker.exists() and marker.read_text() == stamp):
+            tmp = Path(str(base) + ".tmp%d" % os.getpid())
+            shutil.rmtree(tmp, ignore_errors=True)
+            tmp.mkdir(parents=True)
+            w = ctx.mkdir("gocache-seed")
+            (w / "go.mod").write_text(GO_SUM_MOD)
+            shutil.copy(REPO / "go.sum", w / "go.sum")
+            write_files(w, helper_files())
+            write_files(w, {"seed/seed.go": "package seed\n\nimport (\n\t_ \"context\"\n\t_ \"fmt\"\n\t_ \"io\"\n\t_ \"sync\"\n\t_ \"time\"\n\t_ \"unsafe\"\n\n"
+                                            "\t_ \"github.com/stretchr/testify/mock\"\n)\n",
+                            "seed/seed_test.go": "package seed\n\nimport \"testing\"\n\nfunc TestSeed(t *testing.T) {}\n"})
+            for args in (["build", "./..."], ["vet", "-framepointer", "./..."]):
+                p = subprocess.run(["go", *args], cwd=w, env=go_env({"GOCACHE": str(tmp)}), capture_output=True, text=True, timeout=1800)
+                if p.returncode != 0:
+                    raise MachineryError("seeding the private Go build cache failed:\n" + (p.stdout + p.stderr)[-1200:])
+            (tmp / ".verif-ready").write_text(stamp)
+            old = Path(str(base) + ".old%d" % os.getpid())
+            try:
+                if base.exists():
+                    os.rename(base, old)
+                os.rename(tmp, base)
+            except OSError:
+                shutil.rmtree(tmp, ignore_errors=True)      # somebody else seeded it meanwhile
+            shutil.rmtree(old, ignore_errors=True)
+        d = ctx.scratch / "gocache"
+        p = subprocess.run(["cp", "-al", str(base), str(d)], capture_output=True, text=True)
+        if p.returncode != 0:
+            shutil.rmtree(d, ignore_errors=True)
+            p = subprocess.run(["cp", "-a", str(base), str(d)], capture_output=True, text=True)
+            if p.returncode != 0:
+                raise MachineryError("cannot create the per-run Go build cache: " + p.stderr[-300:])
+        ctx._cw_gocache = d
+        return d
+
+
+def cw_env(ctx, extra=None):
+    e = {"GOCACHE": str(gocache(ctx))}
+    e.update(extra or {})
+    return go_env(e)
+
+
 def run_mockery(ctx, cwd, args=(), timeout=600):
     """Thread-safe variant of Ctx.run_mockery (whose trace-file counter is not meant for concurrent callers): runs the
     binary built from the working tree with its own trace file and returns a RunResult with the parsed hook trace."""
@@ -37,7 +98,7 @@ def run_mockery(ctx, cwd, args=(), timeout=600):
     with _RUN_LOCK:
         n = next(_RUN_IDS)
     tfile = ctx.scratch / ("cwtrace-%d.ndjson" % n)
-    e = go_env()
+    e = cw_env(ctx)
     e["VERIFHOOK_TRACE"] = str(tfile)
     t = time.time()
     to = False
@@ -916,7 +977,7 @@ def typecheck(ctx, world, label="", mode="vet"):
     errs = {}
     raw = []
     for args in ([["build", "./..."]] if mode == "build" else [["vet", "-framepointer", "./..."]]):
-        p = subprocess.run(["go", *args], cwd=world, env=go_env(), capture_output=True, text=True, timeout=1800)
+        p = subprocess.run(["go", *args], cwd=world, env=cw_env(ctx), capture_output=True, text=True, timeout=1800)
         raw.append(p.stdout + p.stderr)
         cur = None
         for ln in (p.stdout + p.stderr).splitlines():
@@ -1115,7 +1176,7 @@ def assertion_kind(world, relfile, line):
 
 def typecheck_detailed(ctx, world, label=""):
     """like typecheck(mode=vet) but keeps (file, line, msg) of the first error per directory"""
-    p = subprocess.run(["go", "vet", "-framepointer", "./..."], cwd=world, env=go_env(), capture_output=True, text=True, timeout=1800)
+    p = subprocess.run(["go", "vet", "-framepointer", "./..."], cwd=world, env=cw_env(ctx), capture_output=True, text=True, timeout=1800)
     errs = {}
     for ln in (p.stdout + p.stderr).splitlines():
         m = ERR_RE.match(ln.strip())
